@@ -567,6 +567,18 @@ def main(chk):
 
     # ---- the property on the implementation
     failures, hist, nprog, nrepo = e2e(chk)
+    # sources handed to Str#eval in one process: layout INSIDE a raw string is text (not layout), also the second time a similar
+    # source is evaluated
+    raws = ["x\n\n  y", "x\n  y", "x\ny", "x\n\n\n\ny", "x\n \ty", "x\r\ny", " x\n\n", "x # c\n y"]
+    eprog = "[" + ", ".join('"r := `%s`; r".eval' % r.replace("\\", "\\\\").replace("\n", "\\n").replace("\t", "\\t").replace("\r", "\\r") for r in raws) + "]"
+    ewant = "[" + ", ".join('"%s"' % r for r in raws) + "]"
+    eo = harness("eval", [{"src": eprog + ".{|a| a@{|s| s.len}}"}, {"src": "[" + ", ".join("`%s`" % r for r in raws) + "].{|a| a@{|s| s.len}}"}])
+    chk.count(("eval-raw", eprog), True)
+    if eo[0]["kind"] != "value" or eo[0].get("repr") != eo[1].get("repr"):
+        chk.fail("raw strings inside sources given to Str#eval one after the other do not keep their text: lengths %s, written directly %s" % (
+            eo[0].get("repr") or (eo[0].get("errk"), eo[0].get("errmsg")), eo[1].get("repr")),
+            {"harness": "eval", "program": eprog, "impl": {k: eo[0].get(k) for k in ("kind", "repr", "errk", "errmsg")}, "direct": eo[1].get("repr")}, klass="C16:eval-raw")
+    hist["eval-raw"] = len(raws)
     chk.cov["input_distribution"] = hist
     chk.cov["rule"] = (
         "implementation: %d hand-written base programs x EVERY line break x padding of 0..5 extra bytes and of total size "
